@@ -50,9 +50,39 @@ def run(ctx):
     _r8_opt_removed(ctx)
     _r9_record_header_verbatim(ctx)
     _r10_opt_emitted_with_edns(ctx)
+    _r11_pointers_only_from_the_name_writer(ctx)
     # a record taken back out of the message leaves its names in the compression tree: unless the section ends there, later names
     # are compressed against octets that are gone.  The loop shape is C04's.
     ctx.include("C04", rules=("R3", "R2"))
+
+
+def _r11_pointers_only_from_the_name_writer(ctx):
+    """R11 a compression pointer is written by the name writer, which takes its target from a node of the suffix tree: every target is
+    then the start of labels written in full (or of such a tail), and the chain a decoder follows is one hop long whatever the number of
+    records. A pointer composed anywhere else (0xC0 / 0xC000 combined into an octet or a 16-bit word of the message) points wherever
+    that code thinks fit — at another pointer, say, one hop deeper per record."""
+    P = ctx.P
+    n = 0
+    for b in P.bodies.values():
+        if not b.id.startswith("erbium::dns::dnspkt::") or "::test" in b.id or b.file.endswith("parse.rs"):
+            continue
+        for bb, idx, st in b.stmts():
+            rv = st.get("rv")
+            if not rv or rv["k"] != "bin" or rv["op"] not in ("BitOr", "Add", "AddWithOverflow", "AddUnchecked", "BitXor"):
+                continue
+            vals = [const_int(o["k"]) for o in (rv["a"], rv["b"]) if o.get("k")]
+            if not any(v in (0xC0, 0xC000) for v in vals):
+                continue
+            n += 1
+            ctx.saw(b)
+            other = [o for o in (rv["a"], rv["b"]) if not o.get("k")]
+            T = terms(P, b)
+            tgt = norm(T.operand(other[0], bb, idx)) if other else ("unknown",)
+            from_tree = any(y[0] == "field" and y[2] == "data" for y in subterms(tgt))
+            ctx.check(from_tree, "R11", "pointer-target-comes-from-the-suffix-tree:%s" % b.id.split("::{")[0].rsplit("::", 1)[-1], ctx.where(b, st["sp"]),
+                      "a compression pointer is composed from %s: its target must be the offset a suffix-tree node recorded (node.data)" % show(tgt)[:100])
+    if ctx.config in ("default", "dns"):
+        ctx.floor("R11", "places that compose a compression pointer", n, 2)
 
 
 def _r8_opt_removed(ctx):
@@ -441,6 +471,34 @@ def _r5_r6(ctx):
         loops = [cfg.natural_loop(e) for e in cfg.back_edges()]
         okk = bool(loops) and all(any(b2 in l and (callee_name(t2) or "").endswith("::get_u8") for b2, t2 in b.calls()) for l in loops)
         ctx.check(okk, "R6", "label-loop-consumes-input", ctx.where(b), "")
+        # a name is refused for what that name is: the conditions under which the follower gives up read the message, the position and
+        # the depth and nothing else the parser may carry. What the encoder guarantees it guarantees per name (pointers go backwards, depth
+        # within the bound); a budget shared between the names of a message is a limit the encoder knows nothing about.
+        okb = set()
+        for bb, idx, st in b.stmts():
+            if st["p"] == (0,) and "rv" in st and st["rv"]["k"] == "agg" and st["rv"].get("variant") == "Ok":
+                okb.add(bb)
+        okb |= {bb for bb, tm in rec}
+        foreign = []
+        nsw = 0
+        for bb, tm in b.terms():
+            if tm["k"] != "switch":
+                continue
+            rejecting = [t for t in cfg.succ[bb] if not (cfg.reachable_from(t) & okb)]
+            if not rejecting:
+                continue
+            nsw += 1
+            d = norm(T.at_term(tm["discr"], bb))
+            for y in subterms(d):
+                if y[0] == "field":
+                    base = norm(y[1])
+                    while base[0] == "deref":
+                        base = norm(base[1])
+                    if base[0] == "param" and base[1] == 1 and y[2] not in ("buffer", "offset"):
+                        foreign.append((y[2], tm.get("sp")))
+        ctx.check(nsw >= 2 and not foreign, "R6", "a-name-is-refused-for-its-own-shape", ctx.where(b, foreign[0][1] if foreign else None),
+                  "a condition that makes the name decoder give up reads the parser's `%s`: state carried from one name to the next makes "
+                  "the decoder refuse messages the encoder is entitled to write" % (foreign[0][0] if foreign else "-"))
         # R5 (decoder side): total name length bounded by 255
         def m255(d):
             if d[0] == "bin" and d[1] in ("Gt", "Ge", "Lt", "Le"):
